@@ -357,7 +357,12 @@ def _merge_shape(fields):
     rmin, rmax, cmin, cmax = boundary(fields)
     # faster than np.any([rmin, rmax, cmin, cmax])
     if rmin == 0 and rmax == 0 and cmin == 0 and cmax == 0:
-        return ()
+        # a single pixel at the origin: the result is zero-dimensional only
+        # when every field is
+        if all(field.data.ndim == 0 for field in fields):
+            return ()
+        else:
+            return 1, 1
     else:
         return rmax - rmin + 1, cmax - cmin + 1
 
